@@ -372,14 +372,14 @@ func (h *hookLog) check(o objective, x, g []float64, y float64, haveY bool) bool
 // ---------------------------------------------------------------------------------------------
 // (a) minimisers: BFGS, Newton (min / crit), Rprop, gradient descent, Adam
 
-var minimisers = []string{"bfgs", "newton.RunMin", "newton.RunCrit", "rprop", "gradientDescent", "adam"}
+var minimisers = []string{"bfgs", "newton.RunMin", "newton.RunCrit", "rprop", "gradientDescent", "adam", "rprop.RunGradient", "adam.RunGradient"}
 
 func TestC07_minimisers_meet_stop_condition(t *testing.T) {
 	rapid.Check(t, func(t *rapid.T) {
 		routine := rapid.SampledFrom(minimisers).Draw(t, "routine")
 		var o objective
 		switch routine {
-		case "gradientDescent", "adam":
+		case "gradientDescent", "adam", "adam.RunGradient":
 			o = drawObjective(t, "quadratic", "separable quartic", "ridge logistic")
 		default:
 			o = drawObjective(t)
@@ -460,6 +460,52 @@ func TestC07_minimisers_meet_stop_condition(t *testing.T) {
 					args = append(args, rprop.Constraints{Value: cons})
 				}
 				res, err = rprop.Run(o.ad, x0v, step, eta, args...)
+			case "rprop.RunGradient":
+				// the variant that is handed a gradient function on plain float vectors
+				step, eta := rpropStep, rpropEta
+				gf := rprop.DenseGradientF(func(x, g DenseFloat64Vector) error {
+					copy(g, o.grad(x))
+					return nil
+				})
+				args := []interface{}{rprop.Epsilon{Value: eps}, rprop.MaxIterations{Value: maxIt},
+					rprop.Hook{Value: func(g, step []float64, x ConstVector, y ConstScalar) bool {
+						return hl.check(o, floats(x), append([]float64{}, g...), 0, false)
+					}}}
+				if hs != nil {
+					args = append(args, rprop.ConstConstraints{Value: func(x ConstVector) bool {
+						ok := hs.ok(floats(x))
+						if !ok {
+							constraintHit = true
+						}
+						return ok
+					}})
+				}
+				var r ConstVector
+				r, err = rprop.RunGradient(gf, DenseFloat64Vector(append([]float64{}, x0...)), step, eta, args...)
+				if r != nil {
+					res = NewDenseFloat64Vector(floats(r))
+				}
+			case "adam.RunGradient":
+				gf := adam.DenseGradientF(func(x, g DenseFloat64Vector) error {
+					copy(g, o.grad(x))
+					return nil
+				})
+				args := []interface{}{adam.Epsilon{Value: eps}, adam.MaxIterations{Value: maxIt}, adam.StepSize{Value: adamStep},
+					adam.Hook{Value: func(x, g ConstVector, y ConstScalar) bool { return hl.check(o, floats(x), floats(g), 0, false) }}}
+				if hs != nil {
+					args = append(args, adam.ConstConstraints{Value: func(x ConstVector) bool {
+						ok := hs.ok(floats(x))
+						if !ok {
+							constraintHit = true
+						}
+						return ok
+					}})
+				}
+				var r ConstVector
+				r, err = adam.RunGradient(gf, DenseFloat64Vector(append([]float64{}, x0...)), args...)
+				if r != nil {
+					res = NewDenseFloat64Vector(floats(r))
+				}
 			case "gradientDescent":
 				// no iteration cap in the interface: the hook enforces one
 				hl2 := hl
@@ -521,7 +567,10 @@ func TestC07_minimisers_meet_stop_condition(t *testing.T) {
 		}
 		// bfgs does not call its hook in iterations whose line search failed: only a huge cap that
 		// cannot have been reached makes "not capped" certain
-		if routine == "bfgs" && maxIt < 100000 {
+		// (an iteration without hook call is a failed line search that resets the Hessian
+		// approximation; the steepest-descent iteration after it calls the hook, so at most every
+		// second iteration goes uncounted)
+		if routine == "bfgs" && (maxIt < 100000 || 2*hl.calls+2 >= maxIt) {
 			capKnown = false
 		}
 		if !capKnown {
@@ -1157,4 +1206,28 @@ func TestKF_saga_hook_without_regularisation(t *testing.T) {
 			saga.Hook{Value: func(ConstVector, ConstScalar, ConstScalar, int) bool { return false }})
 	})
 	obs.KFStatus("C07/saga-hook-without-regularisation-dereferences-nil", p != "", p)
+}
+
+func TestKF_rprop_dense_returns_untested_point(t *testing.T) {
+	// f(x) = (x-1)^2/2 from x0 = 0: the returned point must satisfy |f'| < epsilon, and the first hook
+	// call must see the gradient at x0
+	first := math.NaN()
+	gf := rprop.DenseGradientF(func(x, g DenseFloat64Vector) error { g[0] = x[0] - 1; return nil })
+	res, err := rprop.RunGradient(gf, DenseFloat64Vector([]float64{0}), 0.1, []float64{1.2, 0.5}, rprop.Epsilon{Value: 1e-3}, rprop.MaxIterations{Value: 10000},
+		rprop.Hook{Value: func(g, step []float64, x ConstVector, y ConstScalar) bool {
+			if math.IsNaN(first) {
+				first = g[0]
+			}
+			return false
+		}})
+	bad := err == nil && res != nil && (math.Abs(res.ConstAt(0).GetFloat64()-1) >= 1e-3 || first != -1)
+	obs.KFStatus("C07/rprop-dense-variant-returns-the-point-before-the-tested-one", bad, fmt.Sprintf("returned %v err %v, first gradient handed to the hook %v", res, err, first))
+}
+
+func TestKF_adam_rungradient_stepsize(t *testing.T) {
+	gf := adam.DenseGradientF(func(x, g DenseFloat64Vector) error { g[0] = x[0] - 1; return nil })
+	p, _ := guarded(func() {
+		adam.RunGradient(gf, DenseFloat64Vector([]float64{0}), adam.StepSize{Value: 0.1}, adam.MaxIterations{Value: 3})
+	})
+	obs.KFStatus("C07/adam-rungradient-rejects-the-stepsize-option", p != "", p)
 }
